@@ -234,6 +234,8 @@ structure Frame where
   nextBlock : Block
   callerUses : Bool
   kind : FrameKind
+  /-- `caller_expr_id`: the call expression that created this frame -/
+  callerId : Option Nat := none
 
 structure State where
   prog : Program
@@ -246,6 +248,8 @@ structure State where
   stackLimit : Option Nat
   /-- H3: ticks at which the interrupted flag gets set (model of the environment) -/
   interruptAt : List Nat
+  /-- `stop_at_expr_id` (eval-up-to): stop when this node has just been evaluated -/
+  stopAt : Option Nat := none
 
 inductive StepResult where
   /-- the loop continues -/
@@ -484,7 +488,7 @@ def matchCases (s : Program) (f : Frame) (used : Bool) (ty : String) (idx : Nat)
         else matchCases s f used ty idx payload rest
 
 /-- A call whose receiver and arguments are on the value stack (`eval_call`). -/
-def evalCall (s : Program) (f : Frame) (used : Bool) (nargs : Nat) : Disp :=
+def evalCall (s : Program) (f : Frame) (callId : Nat) (used : Bool) (nargs : Nat) : Disp :=
   match popN nargs f.values with
   | none => .panic "Popped an empty value for stack for call arguments"
   | some (args, vals) =>
@@ -502,7 +506,8 @@ def evalCall (s : Program) (f : Frame) (used : Bool) (nargs : Nat) : Disp :=
           let pblock : Block := (params.zip args).foldl
             (fun b kv => if kv.1 == "_" then b else blockSet b kv.1 kv.2) []
           .newFrame f { exprs := body.map (fun x => (St.N, x)), values := [vUnit],
-                        blocks := pblock :: env, nextBlock := [], callerUses := used, kind := .closure }
+                        blocks := pblock :: env, nextBlock := [], callerUses := used, kind := .closure,
+                        callerId := some callId }
       | .fn name =>
         match s.funs.find? (fun d => d.name == name) with
         | none => .panic "function value without definition"
@@ -512,7 +517,8 @@ def evalCall (s : Program) (f : Frame) (used : Bool) (nargs : Nat) : Disp :=
             let pblock : Block := (d.params.zip args).foldl
               (fun b kv => if kv.1 == "_" then b else blockSet b kv.1 kv.2) []
             .newFrame f { exprs := d.body.map (fun x => (St.N, x)), values := [vUnit],
-                          blocks := [pblock], nextBlock := [], callerUses := used, kind := .fn name }
+                          blocks := [pblock], nextBlock := [], callerUses := used, kind := .fn name,
+                          callerId := some callId }
       | .builtin name =>
         if args.length != 1 then .err f .E recvFirst (.arity 1 args.length)
         else match name, args with
@@ -629,7 +635,7 @@ def dispatch (s : Program) (f : Frame) (st : St) (e : Expr) : Disp :=
   | .call _ _ recv args =>
     match st with
     | .N => .ok ((f.pushE .PN e).pushE .N recv)
-    | .E => evalCall s f used args.length
+    | .E => evalCall s f e.id used args.length
     | _ => .ok (args.foldl (fun f x => f.pushE .N x) (f.pushE .E e))
   | .ifE _ _ c thn els =>
     match st with
@@ -742,6 +748,25 @@ def limitExceeded : Option Nat → Nat → Bool
   | some l, n => decide (n > l)
   | none, _ => false
 
+/-- Does `eval_expr` leave the entry's state at `EvaluatedSubexpressions`
+(`expr_state.done_subexpressions()` after the call)? Leaves set it themselves. -/
+def doneSub (st : St) (e : Expr) : Bool :=
+  st == St.E || (match e with
+    | .int .. | .str .. | .var .. | .lambda .. | .brk .. | .cont .. => true
+    | _ => false)
+
+/-- The `stop_at_expr_id` test after a successful `eval_expr`. -/
+def stopCheck (s' : State) (f' : Frame) (st : St) (e : Expr) : StepResult :=
+  if s'.stopAt == some e.id then
+    if doneSub st e then
+      match f'.values with
+      | v :: _ => .done s' v
+      | [] => .done s' (.str "__ERROR: no expressions evaluated. This is a bug.")
+    else if (match e with | .forE .. => true | _ => false) && (st == St.PW || st == St.PD || st == St.PN) then
+      .done s' vUnit
+    else .cont s'
+  else .cont s'
+
 /-- One iteration of the loop in `eval`. -/
 def step (s : State) : StepResult :=
   match s.frames with
@@ -761,8 +786,8 @@ def step (s : State) : StepResult :=
         .error (setTop s (restore f st e [])) .stackLimit
       else
         match dispatch s.prog f st e with
-        | .ok f' => .cont (setTop s f')
-        | .okOut f' o => .cont (setTop { s with out := s.out ++ o } f')
+        | .ok f' => stopCheck (setTop s f') f' st e
+        | .okOut f' o => stopCheck (setTop { s with out := s.out ++ o } f') f' st e
         | .newFrame f' callee => .cont { s with frames := callee :: f' :: callers }
         | .err f' st' vals er => .error (setTop s (restore f' st' e vals)) er
         | .panic site => .panic site
@@ -778,6 +803,9 @@ def step (s : State) : StepResult :=
         match f.values with
         | [] => .panic "Should have a value"
         | rv :: _ =>
+          -- "We've just finished evaluating a call and we were requested to stop at this call"
+          if f.callerId.isSome && s.stopAt == f.callerId then .done { s with frames := caller :: rest } rv
+          else
           let caller := if f.callerUses then caller.pushV rv else caller
           .cont { s with frames := caller :: rest }
 
